@@ -531,6 +531,7 @@ func (f *fnState) instr(ins ssa.Instruction) {
 	case *ssa.Store:
 		lv := f.ptrLV(f.val(i.Addr), "store")
 		f.store(lv, f.val(i.Val))
+		f.limitedReaderGhost(i, lv)
 	case *ssa.UnOp:
 		f.unop(i)
 	case *ssa.BinOp:
@@ -1216,4 +1217,30 @@ func (f *fnState) niObligation(ni spec.NIClause, binds map[string]SV) {
 		// do not assume a 2-safety goal
 		f.log = f.log[:len(f.log)-1]
 	}
+}
+
+// limitedReaderGhost: an io.LimitedReader is a pass-through window onto its R; ghost
+// stream state (taken, failed, rbyte) is keyed by the root of the wrapper chain, so
+// installing R makes the wrapper share the root of what it wraps.
+func (f *fnState) limitedReaderGhost(st *ssa.Store, lv *LV) {
+	fa, ok := st.Addr.(*ssa.FieldAddr)
+	if !ok || lv.Cell != nil || len(lv.Path) != 1 {
+		return
+	}
+	pt, ok := fa.X.Type().Underlying().(*types.Pointer)
+	if !ok {
+		return
+	}
+	named, ok := pt.Elem().(*types.Named)
+	if !ok || named.Obj().Pkg() == nil || named.Obj().Pkg().Path() != "io" || named.Obj().Name() != "LimitedReader" {
+		return
+	}
+	stt := named.Underlying().(*types.Struct)
+	if stt.Field(fa.Field).Name() != "R" {
+		return
+	}
+	v := f.val(st.Val)
+	self := fmt.Sprintf("(mk-if %d %s)", f.e.typeTag(types.NewPointer(named)), lv.Loc)
+	f.note("ghost: io.LimitedReader passes reads through to R unchanged (stream state is keyed by the root of the wrapper chain)")
+	f.assume(fmt.Sprintf("(= (rootid (sid %s)) (rootid (sid %s)))", self, v.T))
 }
